@@ -8,6 +8,8 @@ import (
 	"fmt"
 	"go/token"
 	"go/types"
+	"path/filepath"
+	"strings"
 	"sync"
 
 	"golang.org/x/tools/go/ssa"
@@ -26,6 +28,87 @@ type G struct {
 	doneOk  bool
 	what    string // description of what it blocks on
 	daemon  bool
+	tag     int               // logical id set by the harness (verifTag), default = id
+	hits    map[string]int    // visible operations executed per source site
+	pending *GateStep         // preempted here, not yet resumed
+	started bool
+	startGate int             // index+1 into m.gates of this goroutine's start step
+}
+
+// GateEvent: goroutine g (tag) at its hit-th execution of the visible operation at site,
+// or its exit / blocking.
+type GateEvent struct {
+	G    int    `json:"g"`
+	Kind string `json:"kind"` // site | exit | block
+	Site string `json:"site,omitempty"`
+	Hit  int    `json:"hit,omitempty"`
+}
+
+// GateStep: a preemptive context switch of the counterexample schedule: Park is held at its
+// site until Until has happened.
+type GateStep struct {
+	Park  GateEvent `json:"park"`
+	Until GateEvent `json:"until"`
+}
+
+// siteOf: the source position (base file name:line) of the visible operation the goroutine is about to
+// execute, attributed to the innermost frame of the code under test (repo or harness file).
+func (m *Machine) siteOf(fr *frame) string {
+	pos := token.NoPos
+	for f := fr; f != nil; f = f.caller {
+		if f.fn == nil {
+			break
+		}
+		var p token.Pos
+		if f == fr && f.cur != nil {
+			p = f.cur.Pos()
+		}
+		if isTargetFile(m.prog.fset.Position(f.fn.Pos()).Filename) && f.cur != nil {
+			p = instrPos(f.cur)
+			if !p.IsValid() {
+				p = f.cur.Pos()
+			}
+			if p.IsValid() {
+				pos = p
+				break
+			}
+		}
+		_ = p
+	}
+	if !pos.IsValid() {
+		return ""
+	}
+	pp := m.prog.fset.Position(pos)
+	return fmt.Sprintf("%s:%d", filepath.Base(pp.Filename), pp.Line)
+}
+
+func isTargetFile(name string) bool {
+	return strings.HasPrefix(name, "/repo/")
+}
+
+// visit records the visible operation and returns its event.
+func (m *Machine) visit(fr *frame, g *G) GateEvent {
+	site := m.siteOf(fr)
+	if g.hits == nil {
+		g.hits = map[string]int{}
+	}
+	g.hits[site]++
+	return GateEvent{G: g.tag, Kind: "site", Site: site, Hit: g.hits[site]}
+}
+
+// relinquish: self gives up the processor (event ev) and next runs; completes next's pending park.
+func (m *Machine) relinquish(ev GateEvent, next *G) {
+	if !next.started {
+		// first run of next: natively its start is held until ev has happened
+		next.started = true
+		m.gates = append(m.gates, GateStep{Park: GateEvent{G: next.tag, Kind: "start"}, Until: ev})
+		next.startGate = len(m.gates)
+	}
+	if next.pending != nil {
+		next.pending.Until = ev
+		m.gates = append(m.gates, *next.pending)
+		next.pending = nil
+	}
 }
 
 type chanOp struct {
@@ -70,6 +153,7 @@ type pathEnd struct {
 
 func (m *Machine) spawn(fr *frame, pos token.Pos, fn value, args []value) {
 	g := &G{id: len(m.gs), wake: make(chan struct{}, 1), doneIdx: -1}
+	g.tag = g.id
 	m.gs = append(m.gs, g)
 	m.startG(g, pos, fn, args)
 	m.yield(fr)
@@ -154,6 +238,7 @@ func (m *Machine) exitG(g *G) {
 		return
 	}
 	k := m.chooseG(en)
+	m.relinquish(GateEvent{G: g.tag, Kind: "exit"}, en[k])
 	m.handoff(en[k])
 }
 
@@ -214,6 +299,7 @@ func (m *Machine) yield(fr *frame) {
 		return
 	}
 	self := m.cur
+	ev := m.visit(fr, self)
 	en := m.enabled(self)
 	if len(en) <= 1 {
 		return
@@ -224,6 +310,8 @@ func (m *Machine) yield(fr *frame) {
 	k := m.chooseG(en)
 	if en[k] != self {
 		m.preempts++
+		self.pending = &GateStep{Park: ev}
+		m.relinquish(ev, en[k])
 		m.switchTo(self, en[k])
 	}
 }
@@ -247,6 +335,7 @@ func (m *Machine) block(fr *frame, what string, ready func() bool) {
 		}
 		k := m.chooseG(en)
 		if en[k] != self {
+			m.relinquish(GateEvent{G: self.tag, Kind: "block"}, en[k])
 			m.switchTo(self, en[k])
 		}
 		if ready() {
